@@ -242,6 +242,9 @@ class Frame(object):
         except AttributeError:
             pass
         frame.waterfall = copy.deepcopy(waterfall)
+        if frame.waterfall is not None:
+            # The container still describes the frame the Waterfall came from
+            frame._update_waterfall_container()
         return frame
 
     @classmethod
@@ -1048,40 +1051,7 @@ class Frame(object):
             self.waterfall = Waterfall(str(path), max_load=max_load)
             self.waterfall.header['source_name'] = self.source_name
             self.waterfall.header['rawdatafile'] = 'Synthetic'
-
-            container_attr = {
-                't_begin': 0,
-                't_end': self.tchans,
-                'file_size_bytes': self.tchans * self.fchans * self.waterfall.header['nbits'] / 8,
-                'n_channels_in_file': self.fchans,
-                'n_ints_in_file': self.tchans,
-                'file_shape': (self.tchans, 1, self.fchans),
-                'f_end': self.fmax * 1e-6,
-                'f_begin': self.fmin * 1e-6,
-                'f_stop': self.fmax * 1e-6,
-                'f_start': self.fmin * 1e-6,
-                't_start': 0,
-                't_stop': self.tchans,
-                'selection_shape': (self.tchans, 1, self.fchans),
-                'chan_start_idx': 0,
-                'chan_stop_idx': self.fchans,
-            }
-            for key, value in container_attr.items():
-                setattr(self.waterfall.container,
-                        key,
-                        value)
-
-            wat_attr = {
-                'n_channels_in_file': self.fchans,
-                'n_ints_in_file': self.tchans,
-                'file_shape': (self.tchans, 1, self.fchans),
-                'file_size_bytes': self.tchans * self.fchans * self.waterfall.header['nbits'] / 8,
-                'selection_shape': (self.tchans, 1, self.fchans),
-            }
-            for key, value in wat_attr.items():
-                setattr(self.waterfall,
-                        key,
-                        value)
+            self._update_waterfall_container()
 
         # Format data correctly for saving into filterbank format
         self.waterfall.data = self.data[:, np.newaxis, :]
@@ -1107,6 +1077,45 @@ class Frame(object):
             self.waterfall.container.filename = str(pathlib.Path(filename).resolve())
         self.waterfall.container.idx_data = len(sigproc.generate_sigproc_header(self.waterfall))
         
+    def _update_waterfall_container(self):
+        """
+        Set the attached Waterfall's container geometry (shapes, frequency and
+        time ranges) to that of this frame.
+        """
+        container_attr = {
+            't_begin': 0,
+            't_end': self.tchans,
+            'file_size_bytes': self.tchans * self.fchans * self.waterfall.header['nbits'] / 8,
+            'n_channels_in_file': self.fchans,
+            'n_ints_in_file': self.tchans,
+            'file_shape': (self.tchans, 1, self.fchans),
+            'f_end': self.fmax * 1e-6,
+            'f_begin': self.fmin * 1e-6,
+            'f_stop': self.fmax * 1e-6,
+            'f_start': self.fmin * 1e-6,
+            't_start': 0,
+            't_stop': self.tchans,
+            'selection_shape': (self.tchans, 1, self.fchans),
+            'chan_start_idx': 0,
+            'chan_stop_idx': self.fchans,
+        }
+        for key, value in container_attr.items():
+            setattr(self.waterfall.container,
+                    key,
+                    value)
+
+        wat_attr = {
+            'n_channels_in_file': self.fchans,
+            'n_ints_in_file': self.tchans,
+            'file_shape': (self.tchans, 1, self.fchans),
+            'file_size_bytes': self.tchans * self.fchans * self.waterfall.header['nbits'] / 8,
+            'selection_shape': (self.tchans, 1, self.fchans),
+        }
+        for key, value in wat_attr.items():
+            setattr(self.waterfall,
+                    key,
+                    value)
+
     def _encode_bytestrings(self):
         for key in ['source_name', 'rawdatafile']:
             # Some data don't have these keys to begin with
